@@ -75,6 +75,11 @@ def run(ctx):
             nconst += 1
             if c[0] == "from" and c[1] not in ("f32",):
                 chk.violation("R18.3", "const:%s" % jid, "numeric constant of rule %s enters as %s, not as an f32 literal through From<f32>" % (jid, c[1]), m["entry"]["loc"])
+            elif c[0] == "from" and len(c) > 3 and c[3] in (0.0, 1.0):
+                # From<f32> forces the Float kind of Val; the neutral elements must stay kind-neutral (Int for Val),
+                # otherwise e.g. the exponent n-1 of the power rule turns an integer exponent into a float
+                chk.violation("R18.3", "neutral-const:%s" % jid, "rule %s builds the neutral element %s from a float literal instead of NeutralElts::zero()/one(): for Val this is Float(%s), so integer operands stop being treated as integers (x^3 -> x^(3-1.0))" % (
+                    jid, c[3], c[3]), m["entry"]["loc"])
     chk.floor("R18.3", "numeric constants in rules", nconst, 20)
     for src, want in (("f32", "Float"), ("u8", "Int")):
         bs = fb.find_bodies(lambda b, src=src: b["kind"] == "AssocFn" and b.get("name") == "from" and (b.get("impl_self_ty") or "").startswith("value::Val<")
